@@ -11,7 +11,7 @@ func configure(g *gen) {
 		}, Extra: []string{"log : List GoRt.WEv := []"}},
 		// `ghost` is not a field of the Go struct: it lets an instantiation of the handler-call parameter of
 		// `Next` keep a record (e.g. the trace of handler events) next to the context
-		{Go: "Context", Lean: "Ctx", Params: "(γ : Type)", LeanT: "Ctx γ", Fields: []FieldSpec{
+		{Go: "Context", Lean: "Ctx", Params: "(γ : Type)", LeanT: "Ctx γ", Setters: true, Fields: []FieldSpec{
 			{"index", "int8", "index", tInt8},
 			{"writer", "responseWriter", "writer", T{"struct", "RW"}},
 			{"Req", "*http.Request", "req", T{"opaque", "Option Nat"}},           // nil or the identity of a request
@@ -237,9 +237,9 @@ func configure(g *gen) {
 	hRet := "(s, ctx, some p)"
 	add(FnSpec{Recv: "Router", Func: "handleHTTPRequest", Lean: "Router.handleHTTPRequest",
 		Extra:    []string{"{σ ρ η : Type}", "(env : GoRt.HEnv σ ρ η (Ctx γ))", "(s0 : σ)"},
-		Prologue: []string{"let mut s := s0", "let mut hchain : List η := []"},
+		Prologue: []string{"let mut s : σ := s0", "let mut hchain : List η := []"},
 		RetExtra: []string{"s", "ctx", "(none : Option Panic)"}, RetExtraT: []string{"σ", "Ctx γ", "Option Panic"},
-		MutParams: []string{"ctx"}, DeferRecover: true, PnIndex: 2,
+		MutParams: []string{"ctx"}, DeferRecover: true, PnIndex: 2, Hoist: true, Setters: true,
 		Types: map[string]T{"rux.Params": {"opaque", "Option GoRt.KV"}, "rux.HandlerFunc": {"opaque", "Option η"},
 			"rux.HandlersChain": {"opaque", "List η"}},
 		Exts: []Ext{
@@ -247,7 +247,7 @@ func configure(g *gen) {
 				Stmts: []string{"let %t := env.onPanic s %1", "s := %t.1", "ctx := %t.2.1", "if let some p := %t.2.2 then return " + hRet}},
 			{Callee: "$.OnError", Value: "(env.onErrorH s)", T: T{"opaque", "Option η"},
 				Stmts: []string{"let %t := env.onError s %1", "s := %t.1", "ctx := %t.2.1", "if let some p := %t.2.2 then return " + hRet}},
-			{Callee: "_.Set", Stmts: []string{"ctx := { %1 with data := GoRt.dataSet (%1).data %2 (GoRt.ToDV.toDV %3) }"}},
+			{Callee: "_.Set", Stmts: []string{"ctx := Ctx.set_data %1 (GoRt.dataSet (%1).data %2 (GoRt.ToDV.toDV %3))"}},
 			{Callee: "_.Req.URL.Path", Value: "(env.urlPath (%1).req)", T: tStr},
 			{Callee: "_.Req.URL.EscapedPath", Value: "(env.escapedPath (%1).req)", T: tStr},
 			{Callee: "_.Req.Method", Value: "(env.method (%1).req)", T: tStr},
@@ -261,7 +261,7 @@ func configure(g *gen) {
 			{Callee: "$.handlers", Value: "(env.globalHandlers s)", T: T{"opaque", "List η"}},
 			{Callee: "default405Handlers", Value: "env.default405", T: T{"opaque", "List η"}},
 			{Callee: "default404Handlers", Value: "env.default404", T: T{"opaque", "List η"}},
-			{Callee: "_.SetHandlers", Stmts: []string{"hchain := %2", "ctx := { %1 with handlers := (%2).map (fun _ => ()) }"}},
+			{Callee: "_.SetHandlers", Stmts: []string{"hchain := %2", "ctx := Ctx.set_handlers %1 ((%2).map (fun _ => ()))"}},
 			{Callee: "_.Next", Stmts: []string{"let %t := env.next s %1 hchain", "s := %t.1", "ctx := %t.2.1", "if let some p := %t.2.2 then return " + hRet}},
 		}})
 	// dispatch.go: the two entry points around handleHTTPRequest; the context pool is an abstract state with
